@@ -125,6 +125,19 @@ CLAIMED = {
         "property-based testing (Hypothesis) against definition-level margins and brute-force Smith tiers",
         "3/C06",
     ),
+    "C09": (
+        "Histories: a finished draw-free election of any rule followed by a generated sequence (repetition, any "
+        "order, indices in [-L-2, L+2]) of get_profile / get_step / get_elected / get_eliminated / get_remaining / "
+        "get_ranking / get_status_df / len / str, as plain-data op lists and additionally as a Hypothesis "
+        "RuleBasedStateMachine.  A model captured at construction (copy of the recorded rounds + answers derived "
+        "from the records) is compared after every step: purity of the records, cumulative answers, negative-index "
+        "equivalence, IndexError out of range, get_profile's candidates = round r's remaining, re-scoring = round "
+        "r's recorded tallies, status frame, and 'queries on a draw-free election draw nothing'.",
+        "Only elections whose construction drew no random number are judged (stated domain); order inside a tied "
+        "group of the status frame is free.",
+        "model-based stateful property testing (Hypothesis op-list histories + RuleBasedStateMachine)",
+        "3/C09",
+    ),
 }
 
 PENDING_REASON = "check not built yet in this session; the design (DESIGN.md section 3) claims it and it will be registered once it is quiet on the unchanged tree and catches its mutants"
